@@ -59,7 +59,8 @@ def generic_site(p):
 def make_case(cid, rng, schema, root, n_ops, every):
     d = os.path.join(root, cid)
     ops, metas = GH.gen_library_history(rng, schema, n_ops)
-    full = [{"op": "create", "schema": schema, "dir": d}]
+    from ..framework import is_v2
+    full = [{"op": "lib_create" if is_v2(schema) else "create", "schema": schema, "dir": d}]
     marks = [None]
     for i, (op, m) in enumerate(zip(ops, metas)):
         full.append(op)
@@ -134,7 +135,9 @@ def judge_case(ctx, res):
             ca = after.get("crate_handles") or {}
             if hb != ha or cb != ca:
                 ctx.violation(f"reopen-differs {fam} handles", f"{schema}: handles valid before closing are not all found again by id", wit)
-            for sec in ("db", "crates", "tracks"):
+            if before.get("tables") is not None:
+                ctx.bump("reopens_with_table_view")
+            for sec in ("db", "crates", "tracks", "tables"):
                 for p in diff_paths(before.get(sec), after.get(sec)):
                     ctx.violation(f"reopen-differs {fam} {sec}{generic_site(p)}",
                                   f"{schema}: observation differs after close and reload at {sec}{p}", wit)
